@@ -479,6 +479,50 @@ def r175(ctx):
         ctx.ok(rid, d_node, "jobs submitted = workers + (tsteps - workers - c0) = results consumed: nothing is left in flight and exactly tsteps - c0 moves complete")
 
 
+def r177(ctx):
+    """Shutdown order of the runner: the worker coroutines stop taking units from the queue as soon
+    as the stop event is set, so stop() may set it only after it has seen the queue empty (the
+    not-taken side of its `qsize() > 0` / `not empty()` wait dominates the set), and it waits for
+    the tasks to end afterwards."""
+    rid = "R-17.7"
+    tree = ctx.tree
+    f = tree.func(ASYNC, "aiorunner.stop")
+    cfg = cfg_of(f)
+    sets = [c for c in walk_local(f) if isinstance(c, ast.Call) and isinstance(c.func, ast.Attribute) and c.func.attr == "set" and "stop" in ast.unparse(c.func.value)]
+    if len(sets) != 1:
+        raise AnalysisError(f"R-17.7: {len(sets)} calls that set the stop event in aiorunner.stop (expected 1)")
+    sn = cfg.node_of(sets[0])
+
+    def drained(e, t):
+        """does the fact (e, t) say: the queue is empty?"""
+        txt = ast.unparse(e).replace(" ", "")
+        if isinstance(e, ast.Compare) and len(e.ops) == 1 and "qsize()" in txt and isinstance(e.comparators[0], ast.Constant) and e.comparators[0].value == 0:
+            op = e.ops[0]
+            if isinstance(op, (ast.Gt, ast.NotEq)):
+                return not t
+            if isinstance(op, (ast.Eq, ast.LtE)):
+                return t
+        if isinstance(e, ast.Call) and txt.endswith(".empty()") and "queue" in txt.lower():
+            return t
+        if isinstance(e, ast.Call) and "qsize()" in txt and isinstance(e.func, ast.Attribute) and e.func.attr == "qsize":
+            return not t  # truthiness of qsize()
+        return False
+
+    dn = [n for n in cfg.nodes if n.kind == "branch" and any(drained(e, t) for e, t in n.facts)]
+    if not dn:
+        ctx.bad(rid, sets[0], "aiorunner.stop sets the stop event without ever testing that the queue is empty: units still queued are never executed and their futures never resolve", construct="stop(): no drain test")
+        return
+    if cfg.reaches(cfg.entry, sn, avoid=dn, labels_excluded=("exc",)):
+        ctx.bad(rid, sets[0], "aiorunner.stop sets the stop event before it has seen the queue empty: the worker coroutines finish their current unit and never dequeue another, so units that are still queued are never executed, their results are never delivered, and stop() waits for ever on the queue", construct="stop(): stop event set before the queue is drained")
+    else:
+        ctx.ok(rid, sets[0], "the stop event is set only after the queue was observed empty")
+    waits = [c for c in walk_local(f) if isinstance(c, ast.Call) and "wait_for_tasks_to_end" in ast.unparse(c)]
+    if waits and all(cfg.reaches(sn, cfg.node_of(w)) and not cfg.reaches(cfg.entry, cfg.node_of(w), avoid=[sn], labels_excluded=("exc",)) for w in waits):
+        ctx.ok(rid, waits[0], "stop() waits for the tasks to end after the stop event")
+    else:
+        ctx.bad(rid, sets[0], "stop() does not wait for the worker tasks to end after setting the stop event", construct="stop(): no wait for tasks")
+
+
 def run(ctx):
     ctx.rule("R-17.4", "completed jobs leave the in-flight record (removal before the commit; selector representation agrees with all filling sites)", floor=4)
     ctx.rule("R-17.6", "the restart file is refreshed completely at every commit: each [current] key write_toml maintains is stored on every path to the dump (a finished run persists an empty in-flight record)", floor=3)
@@ -491,11 +535,15 @@ def run(ctx):
     ctx.attempt(r173, ctx)
     ctx.attempt(r174, ctx)
     ctx.attempt(r175, ctx)
+    ctx.rule("R-17.7", "shutdown order: the stop event is set only after the queue was seen empty, then the tasks are awaited (every submitted unit is executed)", floor=2)
+    ctx.attempt(r177, ctx)
     from .shared import commit_refreshes_state
     ctx.attempt(commit_refreshes_state, ctx, "R-17.6", " - e.g. the in-flight record of a finished run still lists the last completed move, which a restart re-issues")
 
 
 VARIANTS = [
+    B("c17-stop-event-before-drain", ASYNC, "        while self._queue.qsize() > 0:\n            time.sleep(0.1)\n\n        # Stop ongoing tasks\n        self._stop_event.set()\n", "        # Stop ongoing tasks\n        self._stop_event.set()\n        while self._queue.qsize() > 0:\n            time.sleep(0.1)\n", "R-17.7", control=True, why="seeded C17_g"),
+    K("c17-keep-drain-test-respelled", ASYNC, "        while self._queue.qsize() > 0:\n            time.sleep(0.1)\n", "        while not self._queue.qsize() == 0:\n            time.sleep(0.1)\n"),
     B("c17-locked-stored-inside-loop", REPEX, '        self.config["current"]["locked"] = locked_ep\n', '            self.config["current"]["locked"] = locked_ep\n', "R-17.6", control=True, why="seeded C17_d"),
     K("c17-keep-locked-comprehension", REPEX, '        locked_ep = []\n        for tup in self.locked:\n            locked_ep.append(\n                ([int(tup0 + self._offset) for tup0 in tup[0]], tup[1])\n            )\n        self.config["current"]["locked"] = locked_ep\n', '        self.config["current"]["locked"] = [([int(tup0 + self._offset) for tup0 in tup[0]], tup[1]) for tup in self.locked]\n'),
     B("c17-submit-guard-strict", SCHED, "        if state.cstep + state.workers <= state.tsteps:", "        if state.cstep + state.workers < state.tsteps:", "R-17.5", control=True),
